@@ -15,6 +15,7 @@ pub fn worker_main(args: &[String]) -> i32 {
         "c08_stdfs" => workers::worker_entry(args, crate::props::c08::worker_stdfs),
         "c10" => workers::worker_entry(args, crate::props::c10::worker),
         "c11-stdfs" => workers::worker_entry(args, crate::props::c11::stdfs_worker),
+        "c12" => workers::worker_entry(args, crate::props::c12::worker),
         "c17" => workers::worker_entry(args, crate::props::c17::worker),
         "c18" => workers::worker_entry(args, crate::props::c18::worker),
         _ => {
